@@ -25,7 +25,14 @@ fn run(case: &Sx) -> Sx {
         Some(s) => s.to_string(),
         None => return sym("badcase"),
     };
-    let args = &l[1..];
+    // "adv2" is the adversarial ArrayKind in its second mode
+    let mut owned: Vec<Sx> = l[1..].to_vec();
+    let is2 = owned.first().and_then(d_sym) == Some("adv2");
+    adv::MODE.store(if is2 { 1 } else { 0 }, std::sync::atomic::Ordering::Relaxed);
+    if is2 {
+        owned[0] = sym("adv");
+    }
+    let args = &owned[..];
     let r = std::panic::catch_unwind(|| {
         // lax / term ops keep their backend argument; strict ops select the module by it
         if let Some(r) = lax_ops::dispatch(&op, args) {
